@@ -24,6 +24,7 @@ type elemKindB struct {
 	typ  string
 	mv   string // body of func mv(v int) <typ>
 	dv   string // body of func dv(x <typ>) int
+	zero string // zero value written as a constant expression
 }
 
 var keyKindsB = []keyKindB{
@@ -40,13 +41,15 @@ var keyKindsB = []keyKindB{
 	{"iface", "interface{}", "switch ki % 5 {\n\tcase 0:\n\t\treturn int64(ki) * 31\n\tcase 1:\n\t\treturn strKey(\"e\", ki)\n\tcase 2:\n\t\tswitch ki {\n\t\tcase 2:\n\t\t\treturn f64Of(2)\n\t\tcase 7:\n\t\t\treturn float64(0)\n\t\tcase 12:\n\t\t\treturn f64Of(1)\n\t\t}\n\t\treturn float64(ki) + 0.25\n\tcase 3:\n\t\treturn [2]int32{int32(ki), int32(-ki)}\n\t}\n\treturn &cells[ki%4096]"},
 	{"big", "[20]int64", "var k [20]int64\n\tk[0], k[19] = int64(ki), int64(-ki)\n\treturn k"},
 	{"ptr", "*int64", "return &cells[ki%4096]"},
+	{"k128", "[16]int64", "var k [16]int64\n\tk[0], k[15] = int64(ki), int64(-ki)\n\treturn k"}, // exactly the inline limit
 }
 
 var elemKindsB = []elemKindB{
-	{"int64", "int64", "return int64(v)", "return int(x)"},
-	{"empty", "struct{}", "return struct{}{}", "return 0"},
-	{"big200", "[25]int64", "var a [25]int64\n\ta[0], a[24] = int64(v), int64(v)*3\n\treturn a", "if x[24] != x[0]*3 {\n\t\treturn -1\n\t}\n\treturn int(x[0])"},
-	{"string", "string", "return \"v\" + itoa(v)", "if len(x) == 0 {\n\t\treturn 0\n\t}\n\tif x[0] != 'v' {\n\t\treturn -1\n\t}\n\tn := 0\n\tfor i := 1; i < len(x); i++ {\n\t\tif x[i] < '0' || x[i] > '9' {\n\t\t\treturn -1\n\t\t}\n\t\tn = n*10 + int(x[i]-'0')\n\t}\n\treturn n"},
+	{"int64", "int64", "return int64(v)", "return int(x)", "0"},
+	{"empty", "struct{}", "return struct{}{}", "return 0", "struct{}{}"},
+	{"big200", "[25]int64", "var a [25]int64\n\ta[0], a[24] = int64(v), int64(v)*3\n\treturn a", "if x[24] != x[0]*3 {\n\t\treturn -1\n\t}\n\treturn int(x[0])", "[25]int64{}"},
+	{"string", "string", "return \"v\" + itoa(v)", "if len(x) == 0 {\n\t\treturn 0\n\t}\n\tif x[0] != 'v' {\n\t\treturn -1\n\t}\n\tn := 0\n\tfor i := 1; i < len(x); i++ {\n\t\tif x[i] < '0' || x[i] > '9' {\n\t\t\treturn -1\n\t\t}\n\t\tn = n*10 + int(x[i]-'0')\n\t}\n\treturn n", "\"\""},
+	{"e128", "[16]int64", "var a [16]int64\n\ta[0], a[15] = int64(v), int64(v)*3\n\treturn a", "if x[15] != x[0]*3 {\n\t\treturn -1\n\t}\n\treturn int(x[0])", "[16]int64{}"}, // exactly the inline limit
 }
 
 // combosB: every key kind with int64 elements, and the other element kinds
@@ -59,7 +62,7 @@ var combosB = func() []comboB {
 		cs = append(cs, comboB{k, 0})
 	}
 	for e := 1; e < len(elemKindsB); e++ {
-		for _, kn := range []string{"int64", "string", "big", "iface"} {
+		for _, kn := range []string{"int64", "string", "big", "iface", "k128"} {
 			for k := range keyKindsB {
 				if keyKindsB[k].name == kn {
 					cs = append(cs, comboB{k, e})
@@ -209,6 +212,16 @@ func set_@C(ki, v int) {
 	println("S", opi)
 }
 
+func setzero_@C(ki int) {
+	defer func() {
+		if r := recover(); r != nil {
+			println("P", opi, errText(r))
+		}
+	}()
+	m_@C[mk_@K(ki)] = @Z
+	println("S", opi)
+}
+
 func exec_@C(cur int, pool int) int {
 	for {
 		op := readInt()
@@ -286,21 +299,25 @@ func exec_@C(cur int, pool int) int {
 				draining = a
 				return 1
 			}
-		case 11, 12, 13:
-			bad_@C(op)
+		case 11, 12, 13, 15:
+			bad_@C(op, a)
+		case 14:
+			setzero_@C(a)
+		case 16:
+			add_@C(a)
 		}
 	}
 }
 `
 
 const badIfaceB = `
-func bad_@C(op int) {
+func bad_@C(op, variant int) {
 	defer func() {
 		if r := recover(); r != nil {
 			println("P", opi, errText(r))
 		}
 	}()
-	var bk interface{} = []int{1, 2}
+	bk := badKey(variant)
 	switch op {
 	case 11:
 		m_@C[bk] = mv_@V(1)
@@ -309,19 +326,65 @@ func bad_@C(op int) {
 		_ = ok
 	case 13:
 		delete(m_@C, bk)
+	case 15:
+		v := m_@C[bk]
+		_ = v
 	}
 	println("N", opi)
 }
 `
 
 const badOtherB = `
-func bad_@C(op int) { println("N", opi) }
+func bad_@C(op, variant int) { println("N", opi) }
+`
+
+const addIntB = `
+func add_@C(ki int) {
+	defer func() {
+		if r := recover(); r != nil {
+			println("P", opi, errText(r))
+		}
+	}()
+	m_@C[mk_@K(ki)] += 1000000
+	println("S", opi)
+}
+`
+
+const addOtherB = `
+func add_@C(ki int) { println("S", opi) }
+`
+
+const badKeysB = `
+type noCmp struct {
+	A int
+	_ [0]func()
+}
+
+type holdsIface struct{ X interface{} }
+
+// badKey: dynamic values that cannot be hashed
+func badKey(variant int) interface{} {
+	switch variant % 6 {
+	case 0:
+		return []int{1, 2}
+	case 1:
+		return map[int]int{1: 2}
+	case 2:
+		return func() {}
+	case 3:
+		return noCmp{A: 3}
+	case 4:
+		return [2]noCmp{{A: 1}, {A: 2}}
+	}
+	return holdsIface{X: []int{3}}
+}
 `
 
 // genInterpreterB renders the whole program.
 func genInterpreterB() string {
 	var sb strings.Builder
 	sb.WriteString(progPreludeB)
+	sb.WriteString(badKeysB)
 	for _, k := range keyKindsB {
 		fmt.Fprintf(&sb, "\ntype K_%s = %s\n\nfunc mk_%s(ki int) K_%s {\n\t%s\n}\n", k.name, k.typ, k.name, k.name, k.mk)
 	}
@@ -331,6 +394,7 @@ func genInterpreterB() string {
 	r := func(t string, ci int, c comboB) string {
 		t = strings.ReplaceAll(t, "@C", fmt.Sprint(ci))
 		t = strings.ReplaceAll(t, "@K", keyKindsB[c.key].name)
+		t = strings.ReplaceAll(t, "@Z", elemKindsB[c.elem].zero)
 		return strings.ReplaceAll(t, "@V", elemKindsB[c.elem].name)
 	}
 	for ci, c := range combosB {
@@ -339,6 +403,11 @@ func genInterpreterB() string {
 			sb.WriteString(r(badIfaceB, ci, c))
 		} else {
 			sb.WriteString(r(badOtherB, ci, c))
+		}
+		if elemKindsB[c.elem].name == "int64" {
+			sb.WriteString(r(addIntB, ci, c))
+		} else {
+			sb.WriteString(r(addOtherB, ci, c))
 		}
 	}
 	sb.WriteString("\nfunc main() {\n\tcombo, hint, pool := readInt(), readInt(), readInt()\n\tswitch combo {\n")
